@@ -15,7 +15,7 @@ use serde_json::{json, Value};
 use std::cell::Cell;
 use std::collections::HashMap;
 
-pub const RULE: &str = "valid positions biased to small quiescence trees (endgames 3..8 men, playout positions, placements <=18 men, motifs incl. in-check roots, single-move roots, roots next to mate/stalemate); configurations: (a) find_best_move(p,d,None) on a fresh Searcher, d in 1..3 (public API, iterative deepening); (b) verif_search_fixed(p,d), d in 4..5 on <=6 men, judged only if the deeper-entry-reuse counter is 0; (c) part promotion-grid, ENUMERATED: every K+P(seventh) v K ending with both kings within two squares of the pawn / promotion square, mover to move at d=2,3 and the other side to move at d=3 (thorough: 4), same oracle (an under-promotion being the only best move is counted). Oracle: plain minimax V(p,d) over the reference rules with the engine's own evaluation at quiescence leaves (no pruning/ordering/caching), exact integer equality (scores beyond +-32767 as WON/LOST); returned move must be legal and attain V; every table entry left behind whose key matches a tree position must be a true (depth,bound,score) claim about V. Cases whose reference tree exceeds the node cap are excluded and counted. Non-trivial = root has >=2 legal moves, V not WON/LOST, >=1 beta cut-off, and for d>=2 >=1 table probe that found an entry; distinct by (FEN, depth, config).";
+pub const RULE: &str = "valid positions biased to small quiescence trees (endgames 3..8 men, playout positions, placements <=18 men, motifs incl. in-check roots, single-move roots, roots next to mate/stalemate); configurations: (a) find_best_move(p,d,None) on a fresh Searcher, d in 1..3 (public API, iterative deepening); (b) verif_search_fixed(p,d), d in 4..5 on <=6 men, judged only if the deeper-entry-reuse counter is 0; (c) part promotion-grid, ENUMERATED: every K+P(seventh) v K ending with both kings within two squares of the pawn / promotion square, mover to move at d=2,3 and the other side to move at d=3 (thorough: 4), same oracle (an under-promotion being the only best move is counted). (d) part geometry-grid, ENUMERATED (quick tier a seed-dependent share): positions of the check-geometry grid (grid.rs) at d=1,2 and their boxed mates (every kind of checking move turned into a mate) at d=1..3. Oracle: plain minimax V(p,d) over the reference rules with the engine's own evaluation at quiescence leaves (no pruning/ordering/caching), exact integer equality (scores beyond +-32767 as WON/LOST); returned move must be legal and attain V; every table entry left behind whose key matches a tree position must be a true (depth,bound,score) claim about V. Cases whose reference tree exceeds the node cap are excluded and counted. Non-trivial = root has >=2 legal moves, V not WON/LOST, >=1 beta cut-off, and for d>=2 >=1 table probe that found an entry; distinct by (FEN, depth, config).";
 
 thread_local! {
     pub static REF_CAP: Cell<u64> = Cell::new(300_000);
@@ -342,6 +342,32 @@ pub fn run(tier: Tier, seed: u64, known: &Known) -> PropRun {
     run.failure = fl;
     if run.failure.is_some() {
         return run;
+    }
+    // the check-geometry grid (grid.rs) and its boxed mates (c08::grid_mates): every kind of special
+    // move one or two plies from the root of a search — quick tier a seed-dependent share
+    {
+        let share: u64 = tier.pick(120, 2);
+        let items: Vec<crate::grid::GridItem> = crate::grid::items().into_iter().filter(|it| it.fam != 4 && (crate::stats::hash_of(it) ^ seed) % (if it.fam == 2 || it.fam == 7 { share / 8 + 1 } else { share }) == 0).collect();
+        run.stats.class_n("geometry_grid_items_taken", items.len() as u64);
+        let (st, fl) = crate::runner::run_enumerated("geometry-grid", &items, threads(), seed, known, |it, st| {
+            REF_CAP.with(|c| c.set(cap));
+            eng::set_counter_wish(0, 1);
+            let h = crate::stats::hash_of(it);
+            if let Some(p) = crate::grid::build(it) {
+                if !p.legal_moves().is_empty() {
+                    judge(&p, 1 + (h % 2) as u8, false, "geometry-grid", st)?;
+                }
+            }
+            for (j, (q, _, _)) in crate::props::c08::grid_mates(it).iter().enumerate().take(2) {
+                judge(q, 1 + ((h >> (8 + j)) % 3) as u8, false, "geometry-grid-boxed-mate", st)?;
+            }
+            Ok(())
+        });
+        run.stats.merge(st);
+        run.failure = fl;
+        if run.failure.is_some() {
+            return run;
+        }
     }
     let grid = promotion_grid(tier);
     run.stats.class_n("promotion_grid_cases_enumerated", grid.len() as u64);
